@@ -106,6 +106,11 @@ EventOK(e) ==
             /\ Eq(N(e.xor), Sub(N(e.or), N(e.and)))
             /\ ~N(e.and).neg /\ Cmp(N(e.and), N(e.a)) <= 0 /\ Cmp(N(e.and), N(e.b)) <= 0
             /\ Cmp(N(e.or), N(e.a)) >= 0 /\ Cmp(N(e.or), N(e.b)) >= 0
+      \* signed operands (infinite two's complement):  (a & b) + (a | b) = a + b  and  a ^ b = (a | b) - (a & b)
+      [] e.ev = "sbits" -> /\ Eq(Add(N(e.and), N(e.or)), Add(N(e.a), N(e.b)))
+                           /\ Eq(N(e.xor), Sub(N(e.or), N(e.and)))
+      \* a & (2^k - 1) is the floored remainder of a by 2^k (the remainder itself is checked by its divmod event)
+      [] e.ev = "mask" -> Eq(N(e.and), N(e.mod))
       [] e.ev = "gcd" -> \* g >= 0, a = g*a1, b = g*b1 (a1, b1 by the interpreter's own floor division), and
                          \* the cofactors have gcd 1 according to the interpreter as well
             /\ ~N(e.g).neg
